@@ -209,6 +209,26 @@ def run(ctx):
             oracle(ctx, "emu", case, o, check_next=True)
             ctx.nontrivial.add("z:" + fmt(case))
     ctx.count("machine snapshot-restore cases", len(zl))
+    # the same restore points on the Rust timer: snapshot_info applied to a context that was configured with other periods
+    # before (so a field the loader fails to overwrite shows), including switched-off (zero-period) timers
+    if okr:
+        rl = []
+        for case in zl:
+            en, pm, ps, isr, ops = case
+            k = ctx.rng.random()
+            rl.append((1, 0 if k < 0.25 else pm, 0 if 0.15 < k < 0.4 else ps, 0, ops))
+        ro, re_ = common.run_sharded([str(RUST_HARNESS)], ["timer_rs " + fmt(c) for c in rl])
+        if re_.strip():
+            ctx.notes.append(f"timer_rs (restore points) stderr: {re_.strip()[-300:]}")
+        ro = (ro + ["MISSING"] * len(rl))[:len(rl)]
+        for case, o in zip(rl, ro):
+            ctx.evaluations += 1
+            ctx.traces += 1
+            if o.startswith("ERR") or o == "MISSING":
+                ctx.report(["rs", "error"], f"rs failed on a restore-point case: {o}", {"case": fmt(case)})
+            else:
+                oracle(ctx, "rs", case, o, check_next=True)
+        ctx.count("rust snapshot-restore cases", len(rl))
     # WAIT on the machine: the cycle counter advances through PCE500Emulator.step -> _simulate_wait; every boundary inside the
     # WAIT must fire exactly once, on the boundary cycle (the scheduler's advance() is observed, not replaced)
     wl = []
